@@ -47,7 +47,10 @@ def build(ctx, n_sup, n_full, n_inst, world_name="faithful"):
         ex.stream.append("supported")
         ex.extra_inst.append({})
     for k in range(n_full):
-        g = schemagen.Gen(ctx.seed * 1000003 + 500000 + k)
+        # every other document of the full stream also carries schema defaults (incl. non-empty
+        # defaults on map / array members)
+        g = schemagen.Gen(ctx.seed * 1000003 + 500000 + k,
+                          features=schemagen.ALL_FEATURES if k % 2 else None)
         doc, tg = g.doc()
         ex.docs.append(doc)
         ex.tags.append(tg)
@@ -93,6 +96,8 @@ def build(ctx, n_sup, n_full, n_inst, world_name="faithful"):
                 ev = schemagen.with_extra_keys(doc, ref, v)
                 if ev is not None:
                     add(ev, "extra-key")
+                for ev2 in schemagen.with_emptied(doc, ref, v):
+                    add(ev2, "emptied")
                 for bv in schemagen.boundary_variants(ctx.seed + n, doc, ref, v)[:4]:
                     add(bv, "boundary")
                 for kind, mv in schemagen.mutants(ctx.seed + n, doc, ref, v)[:8]:
